@@ -23,6 +23,8 @@ struct StreamState {
     eof: bool,
     reader: Option<Waker>,
     reads: usize,
+    /// the socket accepts at most this many bytes per write call (0 = everything): short writes
+    write_cap: usize,
 }
 
 /// A caller-scripted duplex stream: every `poll_read` hands out (at most) the next chunk.
@@ -48,6 +50,10 @@ impl ScriptStream {
         if let Some(w) = s.reader.take() {
             w.wake();
         }
+    }
+    /// From now on every write call is accepted only up to `cap` bytes (a short write; 0 = no limit).
+    pub fn set_write_cap(&self, cap: usize) {
+        self.0.borrow_mut().write_cap = cap;
     }
     pub fn take_written(&self) -> Vec<u8> {
         std::mem::take(&mut self.0.borrow_mut().written)
@@ -87,9 +93,10 @@ impl AsyncRead for ScriptStream {
 impl AsyncWrite for ScriptStream {
     fn poll_write(self: Pin<&mut Self>, _cx: &mut Context<'_>, data: &[u8]) -> Poll<io::Result<usize>> {
         let mut s = self.0.borrow_mut();
-        s.written.extend_from_slice(data);
+        let n = if s.write_cap > 0 { data.len().min(s.write_cap) } else { data.len() };
+        s.written.extend_from_slice(&data[..n]);
         s.writes += 1;
-        Poll::Ready(Ok(data.len()))
+        Poll::Ready(Ok(n))
     }
     fn poll_flush(self: Pin<&mut Self>, _cx: &mut Context<'_>) -> Poll<io::Result<()>> {
         Poll::Ready(Ok(()))
